@@ -1,0 +1,812 @@
+//! Thin wrappers around the crate-private wire codecs for external verification harnesses
+//!
+//! Only compiled with the `verif-hooks` feature. Nothing in here is used by the protocol
+//! implementation; every function calls straight into the real encoder or decoder and converts
+//! between its types and plain integers / byte vectors.
+#![allow(missing_docs)]
+
+use std::{
+    io,
+    net::{IpAddr, Ipv4Addr, Ipv6Addr, SocketAddr, SocketAddrV4, SocketAddrV6},
+};
+
+use bytes::{Buf, BufMut, Bytes, BytesMut};
+
+use crate::{
+    ConnectionId, Dir, Duration, ResetToken, ServerConfig, Side, StreamId, TransportErrorCode,
+    UNIX_EPOCH, VarInt,
+    coding::{BufExt, BufMutExt, Codec},
+    crypto::{HandshakeTokenKey, HeaderKey},
+    frame::{self, Frame, FrameType},
+    packet::{
+        FixedLengthConnectionIdParser, Header, InitialHeader, LongType, PacketNumber, PartialDecode,
+    },
+    range_set::ArrayRangeSet,
+    token::{IncomingToken, Token, TokenPayload},
+    transport_parameters::{PreferredAddress, TransportParameters},
+};
+
+// ---------------------------------------------------------------------------------- varint
+
+/// `VarInt::size` and `Codec::encode` of `x`; `None` if `x` is not a valid `VarInt`
+pub fn varint_encode(x: u64) -> Option<(usize, Vec<u8>)> {
+    let v = VarInt::from_u64(x).ok()?;
+    let mut buf = Vec::new();
+    v.encode(&mut buf);
+    Some((v.size(), buf))
+}
+
+/// `BufMutExt::write_var`
+pub fn write_var(x: u64) -> Vec<u8> {
+    let mut buf = Vec::new();
+    buf.write_var(x);
+    buf
+}
+
+/// `BufExt::get_var`: the value and the number of bytes consumed
+pub fn varint_decode(bytes: &[u8]) -> Option<(u64, usize)> {
+    let mut r = bytes;
+    let v = r.get_var().ok()?;
+    Some((v, bytes.len() - r.remaining()))
+}
+
+/// encode, then decode
+pub fn varint_roundtrip(x: u64) -> Option<u64> {
+    let (_, bytes) = varint_encode(x)?;
+    varint_decode(&bytes).map(|(v, _)| v)
+}
+
+// --------------------------------------------------------------------------- packet numbers
+
+/// `PacketNumber::new(n, largest_acked).encode()`
+pub fn pn_encode(n: u64, largest_acked: u64) -> Vec<u8> {
+    let pn = PacketNumber::new(n, largest_acked);
+    let mut buf = Vec::new();
+    pn.encode(&mut buf);
+    debug_assert_eq!(buf.len(), pn.len());
+    buf
+}
+
+/// `PacketNumber::new(n, largest_acked).len()`
+pub fn pn_len(n: u64, largest_acked: u64) -> usize {
+    PacketNumber::new(n, largest_acked).len()
+}
+
+/// `PacketNumber::decode(bytes.len(), bytes)?.expand(expected)`
+pub fn pn_decode_expand(bytes: &[u8], expected: u64) -> Option<u64> {
+    if !(1..=4).contains(&bytes.len()) {
+        return None;
+    }
+    let mut r = bytes;
+    let pn = PacketNumber::decode(bytes.len(), &mut r).ok()?;
+    Some(pn.expand(expected))
+}
+
+/// Decode once, expand for `count` consecutive expected values starting at `first`
+pub fn pn_decode_expand_range(bytes: &[u8], first: u64, count: u64, out: &mut Vec<u64>) -> bool {
+    if !(1..=4).contains(&bytes.len()) {
+        return false;
+    }
+    let mut r = bytes;
+    let Ok(pn) = PacketNumber::decode(bytes.len(), &mut r) else {
+        return false;
+    };
+    out.extend((0..count).map(|i| pn.expand(first + i)));
+    true
+}
+
+// ----------------------------------------------------------------------------------- frames
+
+/// A frame as plain data
+///
+/// `nums` / `blobs` per `ty`:
+/// - `PADDING`, `PING`, `HANDSHAKE_DONE`, `IMMEDIATE_ACK`: empty
+/// - `ACK`: `[largest, delay, lo1, hi1, lo2, hi2, ..]` acknowledged ranges in descending order;
+///   `ACK_ECN`: `[largest, delay, ect0, ect1, ce, lo1, hi1, ..]`
+/// - `RESET_STREAM [id, code, final]`, `STOP_SENDING [id, code]`, `CRYPTO [offset] [data]`,
+///   `NEW_TOKEN [] [token]`, `STREAM [id, offset, fin] [data]`, `MAX_DATA [v]`,
+///   `MAX_STREAM_DATA [id, v]`, `MAX_STREAMS_BIDI/UNI [v]`, `DATA_BLOCKED [v]`,
+///   `STREAM_DATA_BLOCKED [id, v]`, `STREAMS_BLOCKED_BIDI/UNI [v]`,
+///   `NEW_CONNECTION_ID [seq, retire_prior_to] [cid, reset_token]`, `RETIRE_CONNECTION_ID [seq]`,
+///   `PATH_CHALLENGE/PATH_RESPONSE [] [8 bytes]`, `CONNECTION_CLOSE [code, frame_type] [reason]`,
+///   `APPLICATION_CLOSE [code] [reason]`, `DATAGRAM [] [data]`,
+///   `ACK_FREQUENCY [seq, threshold, max_ack_delay, reordering]`
+#[derive(Debug, Clone, PartialEq, Eq)]
+pub struct FrameRepr {
+    pub ty: &'static str,
+    pub nums: Vec<u64>,
+    pub blobs: Vec<Vec<u8>>,
+}
+
+fn repr(ty: &'static str, nums: Vec<u64>, blobs: Vec<Vec<u8>>) -> FrameRepr {
+    FrameRepr { ty, nums, blobs }
+}
+
+fn render(f: Frame) -> FrameRepr {
+    match f {
+        Frame::Padding => repr("PADDING", vec![], vec![]),
+        Frame::Ping => repr("PING", vec![], vec![]),
+        Frame::Ack(ack) => {
+            let mut nums = vec![ack.largest, ack.delay];
+            if let Some(ecn) = ack.ecn {
+                nums.extend([ecn.ect0, ecn.ect1, ecn.ce]);
+            }
+            for range in ack.iter() {
+                nums.push(*range.start());
+                nums.push(*range.end());
+            }
+            repr(
+                if ack.ecn.is_some() { "ACK_ECN" } else { "ACK" },
+                nums,
+                vec![],
+            )
+        }
+        Frame::ResetStream(x) => repr(
+            "RESET_STREAM",
+            vec![x.id.0, x.error_code.0, x.final_offset.0],
+            vec![],
+        ),
+        Frame::StopSending(x) => repr("STOP_SENDING", vec![x.id.0, x.error_code.0], vec![]),
+        Frame::Crypto(x) => repr("CRYPTO", vec![x.offset], vec![x.data.to_vec()]),
+        Frame::NewToken(x) => repr("NEW_TOKEN", vec![], vec![x.token.to_vec()]),
+        Frame::Stream(x) => repr(
+            "STREAM",
+            vec![x.id.0, x.offset, x.fin as u64],
+            vec![x.data.to_vec()],
+        ),
+        Frame::MaxData(x) => repr("MAX_DATA", vec![x.0], vec![]),
+        Frame::MaxStreamData { id, offset } => repr("MAX_STREAM_DATA", vec![id.0, offset], vec![]),
+        Frame::MaxStreams { dir, count } => repr(
+            match dir {
+                Dir::Bi => "MAX_STREAMS_BIDI",
+                Dir::Uni => "MAX_STREAMS_UNI",
+            },
+            vec![count],
+            vec![],
+        ),
+        Frame::DataBlocked { offset } => repr("DATA_BLOCKED", vec![offset], vec![]),
+        Frame::StreamDataBlocked { id, offset } => {
+            repr("STREAM_DATA_BLOCKED", vec![id.0, offset], vec![])
+        }
+        Frame::StreamsBlocked { dir, limit } => repr(
+            match dir {
+                Dir::Bi => "STREAMS_BLOCKED_BIDI",
+                Dir::Uni => "STREAMS_BLOCKED_UNI",
+            },
+            vec![limit],
+            vec![],
+        ),
+        Frame::NewConnectionId(x) => repr(
+            "NEW_CONNECTION_ID",
+            vec![x.sequence, x.retire_prior_to],
+            vec![x.id.to_vec(), x.reset_token.to_vec()],
+        ),
+        Frame::RetireConnectionId { sequence } => {
+            repr("RETIRE_CONNECTION_ID", vec![sequence], vec![])
+        }
+        Frame::PathChallenge(x) => repr("PATH_CHALLENGE", vec![], vec![x.to_be_bytes().to_vec()]),
+        Frame::PathResponse(x) => repr("PATH_RESPONSE", vec![], vec![x.to_be_bytes().to_vec()]),
+        Frame::Close(frame::Close::Connection(x)) => repr(
+            "CONNECTION_CLOSE",
+            vec![x.error_code.into(), x.frame_type.map_or(0, frame_type_code)],
+            vec![x.reason.to_vec()],
+        ),
+        Frame::Close(frame::Close::Application(x)) => repr(
+            "APPLICATION_CLOSE",
+            vec![x.error_code.0],
+            vec![x.reason.to_vec()],
+        ),
+        Frame::Datagram(x) => repr("DATAGRAM", vec![], vec![x.data.to_vec()]),
+        Frame::AckFrequency(x) => repr(
+            "ACK_FREQUENCY",
+            vec![
+                x.sequence.0,
+                x.ack_eliciting_threshold.0,
+                x.request_max_ack_delay.0,
+                x.reordering_threshold.0,
+            ],
+            vec![],
+        ),
+        Frame::ImmediateAck => repr("IMMEDIATE_ACK", vec![], vec![]),
+        Frame::HandshakeDone => repr("HANDSHAKE_DONE", vec![], vec![]),
+    }
+}
+
+fn frame_type_code(ty: FrameType) -> u64 {
+    let mut buf = Vec::new();
+    ty.encode(&mut buf);
+    (&buf[..]).get_var().unwrap()
+}
+
+fn frame_type_from(code: u64) -> FrameType {
+    FrameType::decode(&mut &write_var(code)[..]).unwrap()
+}
+
+fn error_code_from(code: u64) -> TransportErrorCode {
+    TransportErrorCode::decode(&mut &write_var(code)[..]).unwrap()
+}
+
+/// Iterate `frame::Iter` over a packet payload
+///
+/// Returns the frames decoded before the first error (all frames if there is none) and the error.
+pub fn frames_decode(payload: &[u8]) -> (Vec<FrameRepr>, Option<String>) {
+    let iter = match frame::Iter::new(Bytes::copy_from_slice(payload)) {
+        Ok(x) => x,
+        Err(e) => return (Vec::new(), Some(e.to_string())),
+    };
+    let mut frames = Vec::new();
+    for item in iter {
+        match item {
+            Ok(f) => frames.push(render(f)),
+            Err(e) => return (frames, Some(format!("{:?}: {}", e.ty, e.reason))),
+        }
+    }
+    (frames, None)
+}
+
+/// One line per frame, every field spelled out
+pub fn frames_debug(payload: &[u8]) -> Result<Vec<String>, String> {
+    let (frames, err) = frames_decode(payload);
+    if let Some(e) = err {
+        return Err(e);
+    }
+    Ok(frames
+        .iter()
+        .map(|f| {
+            let blobs = f
+                .blobs
+                .iter()
+                .map(|b| b.iter().map(|x| format!("{x:02x}")).collect::<String>())
+                .collect::<Vec<_>>();
+            format!("{} {:?} {:?}", f.ty, f.nums, blobs)
+        })
+        .collect())
+}
+
+/// Encode a frame with the crate's encoder for its type
+///
+/// `length` selects the explicit-length form of STREAM and DATAGRAM frames, `max_len` is the space
+/// passed to the close frame encoders. Frames that the connection serializes inline (a
+/// `FrameType` followed by `write_var` calls) are written the same way here. Returns `None` if
+/// `f` does not have the shape documented on [`FrameRepr`]; panics like the encoders do when a
+/// number is not a valid `VarInt`.
+pub fn frame_encode(f: &FrameRepr, length: bool, max_len: usize) -> Option<Vec<u8>> {
+    let mut out = Vec::new();
+    let n = &f.nums;
+    let b = &f.blobs;
+    let var = |x: u64| VarInt::from_u64(x).unwrap();
+    let simple = |out: &mut Vec<u8>, ty: FrameType, want: usize| -> Option<()> {
+        if n.len() != want || !b.is_empty() {
+            return None;
+        }
+        out.write(ty);
+        for &x in n.iter() {
+            out.write_var(x);
+        }
+        Some(())
+    };
+    match f.ty {
+        "PADDING" => simple(&mut out, FrameType::PADDING, 0)?,
+        "PING" => simple(&mut out, FrameType::PING, 0)?,
+        "HANDSHAKE_DONE" => simple(&mut out, FrameType::HANDSHAKE_DONE, 0)?,
+        "IMMEDIATE_ACK" => simple(&mut out, FrameType::IMMEDIATE_ACK, 0)?,
+        "MAX_DATA" => simple(&mut out, FrameType::MAX_DATA, 1)?,
+        "MAX_STREAM_DATA" => simple(&mut out, FrameType::MAX_STREAM_DATA, 2)?,
+        "MAX_STREAMS_BIDI" => simple(&mut out, FrameType::MAX_STREAMS_BIDI, 1)?,
+        "MAX_STREAMS_UNI" => simple(&mut out, FrameType::MAX_STREAMS_UNI, 1)?,
+        "DATA_BLOCKED" => simple(&mut out, FrameType::DATA_BLOCKED, 1)?,
+        "STREAM_DATA_BLOCKED" => simple(&mut out, FrameType::STREAM_DATA_BLOCKED, 2)?,
+        "STREAMS_BLOCKED_BIDI" => simple(&mut out, FrameType::STREAMS_BLOCKED_BIDI, 1)?,
+        "STREAMS_BLOCKED_UNI" => simple(&mut out, FrameType::STREAMS_BLOCKED_UNI, 1)?,
+        "RETIRE_CONNECTION_ID" => simple(&mut out, FrameType::RETIRE_CONNECTION_ID, 1)?,
+        "PATH_CHALLENGE" | "PATH_RESPONSE" => {
+            if !n.is_empty() || b.len() != 1 || b[0].len() != 8 {
+                return None;
+            }
+            out.write(if f.ty == "PATH_CHALLENGE" {
+                FrameType::PATH_CHALLENGE
+            } else {
+                FrameType::PATH_RESPONSE
+            });
+            out.write(u64::from_be_bytes(b[0][..].try_into().unwrap()));
+        }
+        "ACK" | "ACK_ECN" => {
+            let skip = if f.ty == "ACK" { 2 } else { 5 };
+            if n.len() < skip + 2 || (n.len() - skip) & 1 == 1 || !b.is_empty() {
+                return None;
+            }
+            let mut ranges = ArrayRangeSet::new();
+            for pair in n[skip..].chunks(2) {
+                ranges.insert(pair[0]..pair[1] + 1);
+            }
+            let ecn = (f.ty == "ACK_ECN").then(|| frame::EcnCounts {
+                ect0: n[2],
+                ect1: n[3],
+                ce: n[4],
+            });
+            frame::Ack::encode(n[1], &ranges, ecn.as_ref(), &mut out);
+        }
+        "RESET_STREAM" => {
+            if n.len() != 3 || !b.is_empty() {
+                return None;
+            }
+            frame::ResetStream {
+                id: StreamId(n[0]),
+                error_code: var(n[1]),
+                final_offset: var(n[2]),
+            }
+            .encode(&mut out);
+        }
+        "STOP_SENDING" => {
+            if n.len() != 2 || !b.is_empty() {
+                return None;
+            }
+            frame::StopSending {
+                id: StreamId(n[0]),
+                error_code: var(n[1]),
+            }
+            .encode(&mut out);
+        }
+        "CRYPTO" => {
+            if n.len() != 1 || b.len() != 1 {
+                return None;
+            }
+            frame::Crypto {
+                offset: n[0],
+                data: Bytes::copy_from_slice(&b[0]),
+            }
+            .encode(&mut out);
+        }
+        "NEW_TOKEN" => {
+            if !n.is_empty() || b.len() != 1 {
+                return None;
+            }
+            let x = frame::NewToken {
+                token: Bytes::copy_from_slice(&b[0]),
+            };
+            x.encode(&mut out);
+            debug_assert_eq!(x.size(), out.len());
+        }
+        "STREAM" => {
+            if n.len() != 3 || b.len() != 1 || n[2] > 1 {
+                return None;
+            }
+            frame::StreamMeta {
+                id: StreamId(n[0]),
+                offsets: n[1]..n[1] + b[0].len() as u64,
+                fin: n[2] == 1,
+            }
+            .encode(length, &mut out);
+            out.put_slice(&b[0]);
+        }
+        "NEW_CONNECTION_ID" => {
+            if n.len() != 2 || b.len() != 2 || b[0].len() > 20 || b[1].len() != 16 {
+                return None;
+            }
+            let token: [u8; 16] = b[1][..].try_into().unwrap();
+            frame::NewConnectionId {
+                sequence: n[0],
+                retire_prior_to: n[1],
+                id: ConnectionId::new(&b[0]),
+                reset_token: ResetToken::from(token),
+            }
+            .encode(&mut out);
+        }
+        "CONNECTION_CLOSE" => {
+            if n.len() != 2 || b.len() != 1 {
+                return None;
+            }
+            frame::Close::from(frame::ConnectionClose {
+                error_code: error_code_from(n[0]),
+                frame_type: (n[1] != 0).then(|| frame_type_from(n[1])),
+                reason: Bytes::copy_from_slice(&b[0]),
+            })
+            .encode(&mut out, max_len);
+        }
+        "APPLICATION_CLOSE" => {
+            if n.len() != 1 || b.len() != 1 {
+                return None;
+            }
+            frame::Close::from(frame::ApplicationClose {
+                error_code: var(n[0]),
+                reason: Bytes::copy_from_slice(&b[0]),
+            })
+            .encode(&mut out, max_len);
+        }
+        "DATAGRAM" => {
+            if !n.is_empty() || b.len() != 1 {
+                return None;
+            }
+            let x = frame::Datagram {
+                data: Bytes::copy_from_slice(&b[0]),
+            };
+            x.encode(length, &mut out);
+            debug_assert_eq!(x.size(length), out.len());
+        }
+        "ACK_FREQUENCY" => {
+            if n.len() != 4 || !b.is_empty() {
+                return None;
+            }
+            frame::AckFrequency {
+                sequence: var(n[0]),
+                ack_eliciting_threshold: var(n[1]),
+                request_max_ack_delay: var(n[2]),
+                reordering_threshold: var(n[3]),
+            }
+            .encode(&mut out);
+        }
+        _ => return None,
+    }
+    Some(out)
+}
+
+// --------------------------------------------------------------------- transport parameters
+
+/// Server's preferred address as plain data
+#[derive(Debug, Clone, PartialEq, Eq)]
+pub struct PreferredAddressRepr {
+    pub v4: Option<([u8; 4], u16)>,
+    pub v6: Option<([u8; 16], u16)>,
+    pub cid: Vec<u8>,
+    pub reset_token: [u8; 16],
+}
+
+/// `TransportParameters` as plain data
+///
+/// `ints` holds, in this order: max_idle_timeout, max_udp_payload_size, initial_max_data,
+/// initial_max_stream_data_bidi_local, initial_max_stream_data_bidi_remote,
+/// initial_max_stream_data_uni, initial_max_streams_bidi, initial_max_streams_uni,
+/// ack_delay_exponent, max_ack_delay, active_connection_id_limit.
+#[derive(Debug, Clone, PartialEq, Eq)]
+pub struct TpRepr {
+    pub ints: [u64; 11],
+    pub disable_active_migration: bool,
+    pub max_datagram_frame_size: Option<u64>,
+    pub initial_src_cid: Option<Vec<u8>>,
+    pub grease_quic_bit: bool,
+    pub min_ack_delay: Option<u64>,
+    pub original_dst_cid: Option<Vec<u8>>,
+    pub retry_src_cid: Option<Vec<u8>>,
+    pub stateless_reset_token: Option<[u8; 16]>,
+    pub preferred_address: Option<PreferredAddressRepr>,
+}
+
+fn tp_render(p: &TransportParameters) -> TpRepr {
+    TpRepr {
+        ints: [
+            p.max_idle_timeout.0,
+            p.max_udp_payload_size.0,
+            p.initial_max_data.0,
+            p.initial_max_stream_data_bidi_local.0,
+            p.initial_max_stream_data_bidi_remote.0,
+            p.initial_max_stream_data_uni.0,
+            p.initial_max_streams_bidi.0,
+            p.initial_max_streams_uni.0,
+            p.ack_delay_exponent.0,
+            p.max_ack_delay.0,
+            p.active_connection_id_limit.0,
+        ],
+        disable_active_migration: p.disable_active_migration,
+        max_datagram_frame_size: p.max_datagram_frame_size.map(|x| x.0),
+        initial_src_cid: p.initial_src_cid.map(|x| x.to_vec()),
+        grease_quic_bit: p.grease_quic_bit,
+        min_ack_delay: p.min_ack_delay.map(|x| x.0),
+        original_dst_cid: p.original_dst_cid.map(|x| x.to_vec()),
+        retry_src_cid: p.retry_src_cid.map(|x| x.to_vec()),
+        stateless_reset_token: p.stateless_reset_token.map(|x| x[..].try_into().unwrap()),
+        preferred_address: p.preferred_address.map(|x| PreferredAddressRepr {
+            v4: x.address_v4.map(|a| (a.ip().octets(), a.port())),
+            v6: x.address_v6.map(|a| (a.ip().octets(), a.port())),
+            cid: x.connection_id.to_vec(),
+            reset_token: x.stateless_reset_token[..].try_into().unwrap(),
+        }),
+    }
+}
+
+/// `TransportParameters::write` of the given values (default write order, no reserved parameter)
+pub fn transport_parameters_encode(r: &TpRepr) -> Vec<u8> {
+    let var = |x: u64| VarInt::from_u64(x).unwrap();
+    let cid = |x: &Vec<u8>| ConnectionId::new(x);
+    let p = TransportParameters {
+        max_idle_timeout: var(r.ints[0]),
+        max_udp_payload_size: var(r.ints[1]),
+        initial_max_data: var(r.ints[2]),
+        initial_max_stream_data_bidi_local: var(r.ints[3]),
+        initial_max_stream_data_bidi_remote: var(r.ints[4]),
+        initial_max_stream_data_uni: var(r.ints[5]),
+        initial_max_streams_bidi: var(r.ints[6]),
+        initial_max_streams_uni: var(r.ints[7]),
+        ack_delay_exponent: var(r.ints[8]),
+        max_ack_delay: var(r.ints[9]),
+        active_connection_id_limit: var(r.ints[10]),
+        disable_active_migration: r.disable_active_migration,
+        max_datagram_frame_size: r.max_datagram_frame_size.map(var),
+        initial_src_cid: r.initial_src_cid.as_ref().map(cid),
+        grease_quic_bit: r.grease_quic_bit,
+        min_ack_delay: r.min_ack_delay.map(var),
+        original_dst_cid: r.original_dst_cid.as_ref().map(cid),
+        retry_src_cid: r.retry_src_cid.as_ref().map(cid),
+        stateless_reset_token: r.stateless_reset_token.map(ResetToken::from),
+        preferred_address: r.preferred_address.as_ref().map(|x| PreferredAddress {
+            address_v4: x
+                .v4
+                .map(|(ip, port)| SocketAddrV4::new(Ipv4Addr::from(ip), port)),
+            address_v6: x
+                .v6
+                .map(|(ip, port)| SocketAddrV6::new(Ipv6Addr::from(ip), port, 0, 0)),
+            connection_id: ConnectionId::new(&x.cid),
+            stateless_reset_token: ResetToken::from(x.reset_token),
+        }),
+        grease_transport_parameter: None,
+        write_order: None,
+    };
+    let mut buf = Vec::new();
+    p.write(&mut buf);
+    buf
+}
+
+/// `TransportParameters::read` as performed by `side` on its peer's parameters
+pub fn transport_parameters_decode(side: Side, bytes: &[u8]) -> Result<TpRepr, String> {
+    let mut r = bytes;
+    TransportParameters::read(side, &mut r)
+        .map(|p| tp_render(&p))
+        .map_err(|e| e.to_string())
+}
+
+// ----------------------------------------------------------------------------- packet headers
+
+/// A packet header as plain data; `kind` is one of
+/// `initial`, `zerortt`, `handshake`, `short`, `retry`, `vn`
+#[derive(Debug, Clone, PartialEq, Eq, Default)]
+pub struct HeaderRepr {
+    pub kind: &'static str,
+    pub version: u32,
+    pub dst_cid: Vec<u8>,
+    pub src_cid: Vec<u8>,
+    pub token: Vec<u8>,
+    /// Truncated packet number as it appears on the wire
+    pub pn: Vec<u8>,
+    pub spin: bool,
+    pub key_phase: bool,
+    /// Unused bits of a version negotiation packet's first byte
+    pub random: u8,
+}
+
+/// `Header::encode`, the bytes `rest` and `PartialEncode::finish` without packet protection
+///
+/// `n` and `largest_acked` go through `PacketNumber::new`. Header protection is applied with
+/// `header_key`.
+pub fn packet_encode(
+    h: &HeaderRepr,
+    n: u64,
+    largest_acked: u64,
+    rest: &[u8],
+    header_key: &dyn HeaderKey,
+) -> Option<Vec<u8>> {
+    let number = PacketNumber::new(n, largest_acked);
+    let dst_cid = ConnectionId::new(&h.dst_cid);
+    let src_cid = ConnectionId::new(&h.src_cid);
+    let header = match h.kind {
+        "initial" => Header::Initial(InitialHeader {
+            dst_cid,
+            src_cid,
+            token: Bytes::copy_from_slice(&h.token),
+            number,
+            version: h.version,
+        }),
+        "zerortt" | "handshake" => Header::Long {
+            ty: if h.kind == "zerortt" {
+                LongType::ZeroRtt
+            } else {
+                LongType::Handshake
+            },
+            dst_cid,
+            src_cid,
+            number,
+            version: h.version,
+        },
+        "retry" => Header::Retry {
+            dst_cid,
+            src_cid,
+            version: h.version,
+        },
+        "short" => Header::Short {
+            spin: h.spin,
+            key_phase: h.key_phase,
+            dst_cid,
+            number,
+        },
+        "vn" => Header::VersionNegotiate {
+            random: h.random,
+            src_cid,
+            dst_cid,
+        },
+        _ => return None,
+    };
+    let mut buf = Vec::new();
+    let partial = header.encode(&mut buf);
+    buf.extend_from_slice(rest);
+    partial.finish(&mut buf, header_key, None);
+    Some(buf)
+}
+
+/// `PartialDecode::new` followed by `PartialDecode::finish`
+///
+/// Returns the header, the length of the header, the payload and the remaining bytes of the
+/// datagram (coalesced packets).
+#[allow(clippy::type_complexity)]
+pub fn packet_decode(
+    datagram: &[u8],
+    local_cid_len: usize,
+    supported_versions: &[u32],
+    grease_quic_bit: bool,
+    header_key: &dyn HeaderKey,
+) -> Result<(HeaderRepr, usize, Vec<u8>, Option<Vec<u8>>), String> {
+    let (partial, rest) = PartialDecode::new(
+        BytesMut::from(datagram),
+        &FixedLengthConnectionIdParser::new(local_cid_len),
+        supported_versions,
+        grease_quic_bit,
+    )
+    .map_err(|e| e.to_string())?;
+    let packet = partial
+        .finish(Some(header_key))
+        .map_err(|e| e.to_string())?;
+    let pn = |number: PacketNumber| {
+        let mut buf = Vec::new();
+        number.encode(&mut buf);
+        buf
+    };
+    let header = match packet.header {
+        Header::Initial(InitialHeader {
+            dst_cid,
+            src_cid,
+            token,
+            number,
+            version,
+        }) => HeaderRepr {
+            kind: "initial",
+            version,
+            dst_cid: dst_cid.to_vec(),
+            src_cid: src_cid.to_vec(),
+            token: token.to_vec(),
+            pn: pn(number),
+            ..HeaderRepr::default()
+        },
+        Header::Long {
+            ty,
+            dst_cid,
+            src_cid,
+            number,
+            version,
+        } => HeaderRepr {
+            kind: match ty {
+                LongType::Handshake => "handshake",
+                LongType::ZeroRtt => "zerortt",
+            },
+            version,
+            dst_cid: dst_cid.to_vec(),
+            src_cid: src_cid.to_vec(),
+            pn: pn(number),
+            ..HeaderRepr::default()
+        },
+        Header::Retry {
+            dst_cid,
+            src_cid,
+            version,
+        } => HeaderRepr {
+            kind: "retry",
+            version,
+            dst_cid: dst_cid.to_vec(),
+            src_cid: src_cid.to_vec(),
+            ..HeaderRepr::default()
+        },
+        Header::Short {
+            spin,
+            key_phase,
+            dst_cid,
+            number,
+        } => HeaderRepr {
+            kind: "short",
+            dst_cid: dst_cid.to_vec(),
+            pn: pn(number),
+            spin,
+            key_phase,
+            ..HeaderRepr::default()
+        },
+        Header::VersionNegotiate {
+            random,
+            src_cid,
+            dst_cid,
+        } => HeaderRepr {
+            kind: "vn",
+            dst_cid: dst_cid.to_vec(),
+            src_cid: src_cid.to_vec(),
+            random,
+            ..HeaderRepr::default()
+        },
+    };
+    Ok((
+        header,
+        packet.header_data.len(),
+        packet.payload.to_vec(),
+        rest.map(|x| x.to_vec()),
+    ))
+}
+
+/// `ConnectionId::encode_long`
+pub fn cid_encode_long(cid: &[u8]) -> Vec<u8> {
+    let mut buf = Vec::new();
+    ConnectionId::new(cid).encode_long(&mut buf);
+    buf
+}
+
+/// `ConnectionId::decode_long`: the CID and the number of bytes consumed
+pub fn cid_decode_long(bytes: &[u8]) -> Option<(Vec<u8>, usize)> {
+    let mut r = io::Cursor::new(bytes);
+    let cid = ConnectionId::decode_long(&mut r)?;
+    Some((cid.to_vec(), r.position() as usize))
+}
+
+// ------------------------------------------------------------------------------------ tokens
+
+/// `Token::new(Retry { .. }, rng).encode(key)`
+pub fn token_encode_retry(
+    key: &dyn HandshakeTokenKey,
+    address: SocketAddr,
+    orig_dst_cid: &[u8],
+    issued_secs: u64,
+    rng: &mut impl rand::Rng,
+) -> Vec<u8> {
+    Token::new(
+        TokenPayload::Retry {
+            address,
+            orig_dst_cid: ConnectionId::new(orig_dst_cid),
+            issued: UNIX_EPOCH + Duration::from_secs(issued_secs),
+        },
+        rng,
+    )
+    .encode(key)
+}
+
+/// `Token::new(Validation { .. }, rng).encode(key)`
+pub fn token_encode_validation(
+    key: &dyn HandshakeTokenKey,
+    ip: IpAddr,
+    issued_secs: u64,
+    rng: &mut impl rand::Rng,
+) -> Vec<u8> {
+    Token::new(
+        TokenPayload::Validation {
+            ip,
+            issued: UNIX_EPOCH + Duration::from_secs(issued_secs),
+        },
+        rng,
+    )
+    .encode(key)
+}
+
+/// `IncomingToken::from_header` for an Initial packet carrying `token` to `dst_cid` from `remote`
+///
+/// Returns `(retry_src_cid, orig_dst_cid, validated)`, or `None` for an invalid Retry token.
+#[allow(clippy::type_complexity)]
+pub fn token_check(
+    server_config: &ServerConfig,
+    token: &[u8],
+    dst_cid: &[u8],
+    remote: SocketAddr,
+) -> Option<(Option<Vec<u8>>, Vec<u8>, bool)> {
+    let header = InitialHeader {
+        dst_cid: ConnectionId::new(dst_cid),
+        src_cid: ConnectionId::new(&[]),
+        token: Bytes::copy_from_slice(token),
+        number: PacketNumber::U8(0),
+        version: 1,
+    };
+    let x = IncomingToken::from_header(&header, server_config, remote).ok()?;
+    Some((
+        x.retry_src_cid.map(|c| c.to_vec()),
+        x.orig_dst_cid.to_vec(),
+        x.validated,
+    ))
+}
